@@ -23,7 +23,7 @@ def Before (a b : Write) (ws : List Write) : Prop := ∃ l1 l2 l3, ws = l1 ++ a 
 def QueueWellFormed (status : List Status) (q : List (Option Nat)) : Prop :=
   ∀ x, some x ∈ q → Pending (statusOf status x)
 
-theorem saveOrder_ok {status : List Status} {g : Graph} {q : List (Option Nat)} {ws : List Write}
+private theorem saveOrder_ok {status : List Status} {g : Graph} {q : List (Option Nat)} {ws : List Write}
     (h : saveOrder status g q = .ok ws) :
     Trace g { status := status, out := [] } { status := (match saveQueue g (fuelFor status) q { status := status, out := [] } with | .ok s => s.status | .error _ => []), out := ws } ws
     ∧ ∀ x, some x ∈ q → Pending (statusOf status x) ∧ stmt status x ∈ ws := by
@@ -87,7 +87,7 @@ theorem C16_ok_queue_wellformed (status : List Status) (g : Graph) (q : List (Op
 
 /-! ### termination and the possible errors -/
 
-theorem saveOrder_err {status : List Status} {g : Graph} {q : List (Option Nat)} {e : Err}
+private theorem saveOrder_err {status : List Status} {g : Graph} {q : List (Option Nat)} {e : Err}
     (h : saveOrder status g q = .error e) :
     e ≠ .outOfFuel
     ∧ (∀ y, e = .badStatus y → some y ∈ q ∧ ¬ Pending (statusOf status y))
@@ -128,7 +128,7 @@ theorem C16_cycle_sound (status : List Status) (g : Graph) (q : List (Option Nat
   | single e => obtain ⟨_, _, _, hc⟩ := e; exact hc
   | tail _ e => obtain ⟨_, _, _, hc⟩ := e; exact hc
 
-theorem idx_before {ws : List Write} (hn : ws.Nodup) {a b : Write} (h : Before a b ws) :
+private theorem idx_before {ws : List Write} (hn : ws.Nodup) {a b : Write} (h : Before a b ws) :
     List.idxOf a ws < List.idxOf b ws := by
   obtain ⟨l1, l2, l3, rfl⟩ := h
   have ha1 : a ∉ l1 := by
@@ -236,6 +236,54 @@ theorem C16_m2m_bracket (ss : Session) (out : List Write) (h : flush ss = .ok ou
       rw [ht] at this
       obtain ⟨l1, l2, h1⟩ := List.append_of_mem this
       exact ⟨l1, l2, ws2, by rw [hsplit, h1]⟩
+
+/-! ### the emitted order is accepted by a backend that enforces foreign keys immediately -/
+
+/-- an end of a new link row is either inserted by this flush or a row that stays -/
+def LinkEndOk (ss : Session) (rows0 : List Nat) (e : Nat) : Prop :=
+  (statusOf ss.status e = .created ∧ some e ∈ ss.queue) ∨ Stable ss.status rows0 e
+
+/-- Session hypotheses (what Pony's object layer maintains): every reference a pending statement carries points to a
+    still-unsaved object or to a row that exists (`rows0`) and is not being deleted; same for the ends of new link rows.
+    Then the database model with immediate parent-must-exist checks (`applyWrites`) accepts the whole statement list of
+    the flush — INSERTs, UPDATEs, link rows — in the emitted order. -/
+theorem C16_fk_accepts (ss : Session) (rows0 : List Nat) (out : List Write)
+    (hrefs : ∀ x, ∀ r ∈ attrsToCheck ss.refs (statusOf ss.status x) x,
+      statusOf ss.status r.target = .created ∨ Stable ss.status rows0 r.target)
+    (hlinks : ∀ p ∈ ss.added, LinkEndOk ss rows0 p.1 ∧ LinkEndOk ss rows0 p.2)
+    (h : flush ss = .ok out) : (applyWrites ss.refs rows0 out).isSome = true := by
+  unfold flush at h
+  simp only at h
+  cases hr : saveQueue ss.refs (fuelFor ss.status) ss.queue
+      { status := ss.status, out := ss.removed.map (fun p => Write.unlink p.1 p.2) } with
+  | error e => simp [hr] at h
+  | ok s =>
+    simp [hr] at h
+    obtain ⟨ws, ho, T, hq⟩ := run_trace (by intro w hw; simp at hw; obtain ⟨a, b, _, rfl⟩ := hw; rfl) hr
+    obtain ⟨rows', hrows, hinv⟩ := applyWrites_trace (rows0 := rows0) T hrefs ws [] rows0 (by simp)
+      (by intro y hy; rcases hy with hy | hy
+          · exact hy.1
+          · simp at hy)
+    have hends : ∀ e, LinkEndOk ss rows0 e → e ∈ rows' := by
+      intro e he
+      rcases he with ⟨hc, hqe⟩ | hs
+      · apply hinv e; right
+        have := (hq e hqe).2
+        rw [hc] at this; exact this
+      · exact hinv e (Or.inl hs)
+    rw [← h, ho, applyWrites_append, applyWrites_append, applyWrites_unlinks]
+    simp only [Option.bind_some, hrows]
+    rw [applyWrites_links _ _ _ (fun p hp => ⟨hends _ (hlinks p hp).1, hends _ (hlinks p hp).2⟩)]
+    rfl
+
+/-- the hypotheses are satisfiable: new 0 refers to new 1 and to the existing row 3; existing row 2 is deleted;
+    a link row between 0 and 3 is added, one between 2 and 3 removed -/
+example : (applyWrites [[⟨1, true⟩, ⟨3, true⟩], [], [], []] [2, 3]
+    [.unlink 2 3, .insert 1, .insert 0, .delete 2, .link 0 3]).isSome = true := by rfl
+
+/-- the same statements with the two INSERTs swapped are refused by the database model -/
+example : (applyWrites [[⟨1, true⟩, ⟨3, true⟩], [], [], []] [2, 3]
+    [.unlink 2 3, .insert 0, .insert 1, .delete 2, .link 0 3]).isSome = false := by rfl
 
 example : flush { status := [.created, .other, .markedToDelete], refs := [[⟨1, true⟩], [], []], queue := [some 0, none, some 2],
                   removed := [(2, 1)], added := [(0, 1)] }
